@@ -649,6 +649,7 @@ def h_manager_exception_mapping(ctx):
     mgr = mm.AxolotlManager.__new__(mm.AxolotlManager)
     mgr._get_session_cipher = lambda who: Cipher()
     mgr._get_group_cipher = lambda g, u: Cipher()
+    saved = (mm.PreKeyWhisperMessage, mm.WhisperMessage)
     mm.PreKeyWhisperMessage = lambda serialized=None: object()
     mm.WhisperMessage = lambda serialized=None: object()
     got = None
@@ -659,6 +660,8 @@ def h_manager_exception_mapping(ctx):
             getattr(mgr, api)("sender", b"data", True)
     except Exception as e:
         got = type(e)
+    finally:
+        mm.PreKeyWhisperMessage, mm.WhisperMessage = saved          # other cases of this process use the real message classes
     return [("%s: library failure '%s' is reported as yowsup's %s (got %s)" % (api, which, expected.__name__, getattr(got, "__name__", got)), got is expected)]
 
 
@@ -670,13 +673,17 @@ def h_padding(ctx):
         @staticmethod
         def randint(a, b):
             return ctx.int("pad", a, b)
+    saved = mm.random
     mm.random = Rnd
-    mgr = mm.AxolotlManager.__new__(mm.AxolotlManager)
-    L = ctx.int("L", 0, 1 << 20)
-    msg = H.blob(ctx, "MSG", L)
-    pad = mgr._generate_random_padding()
-    padded = msg + pad
-    out = mgr._unpad(padded)
+    try:
+        mgr = mm.AxolotlManager.__new__(mm.AxolotlManager)
+        L = ctx.int("L", 0, 1 << 20)
+        msg = H.blob(ctx, "MSG", L)
+        pad = mgr._generate_random_padding()
+        padded = msg + pad
+        out = mgr._unpad(padded)
+    finally:
+        mm.random = saved
     return [("pad length in 1..255", core.eq(H.length_of(pad) >= 1, True) if H.sym(ctx) else 1 <= len(pad) <= 255),
             ("unpad(message + padding) == message", H.rope_eq(out, msg))]
 
